@@ -264,6 +264,7 @@ def owners(div):
         return ({"C20"} | ({"C09"} if ("poll-" in txt or "reproc_poll" in txt) else set()) | ({"C16"} if (" drain " in txt or "reproc_drain" in txt) else set())
                 | ({"C13"} if ("start-rejected-valid" in txt or "start-accepted-invalid" in txt or "parse_options" in txt) else set())
                 | ({"C12"} if "mask-after-start" in txt else set())
+                | ({"C07"} if ("reproc_stop" in txt or "parse_stop_actions" in txt) else set())
                 | ({"C17"} if ("hang" in txt or "rw-" in txt) else set())   # a call that waits for something other than the child
                 | ({"C02"} if any(w in txt for w in ("echo-differs", "read-end", "rw-", "reproc_read", "reproc_write", "reproc_drain", " drain ")) else set()))
     if kind == "optprod":
@@ -576,7 +577,7 @@ def fam_poll(tier, outdir):
 
 def fam_stream(tier, outdir):
     consts = {"Handles": "{1}", "MaxTime": 0, "MaxCalls": 5, "PipeCap": 4, "MaxOut": 2, "ExitCodes": "{3}", "TermDelay": 1,
-              "Inputs": "{99, 3, 5}", "ReadSizes": "{0, 1, 3}", "WriteSizes": "{0, 3, 5}", "DlOpts": "{0}", "Mode": '"io"',
+              "Inputs": "{99, 0, 3, 5}", "ReadSizes": "{0, 1, 3}", "WriteSizes": "{0, 3, 5}", "DlOpts": "{0}", "Mode": '"io"',
               "SinkFails": "{}", "NbOpts": "{TRUE, FALSE}"}
     if tier == "thorough":
         consts.update({"MaxOut": 3})
@@ -1293,7 +1294,7 @@ def fam_destroy(tier, outdir):
     cfg = os.path.join(outdir, "MC_Destroy.cfg")
     write_cfg(cfg, "Spec", consts, ["TypeOK", "LifeChild", "DestroyReleases", "DefaultTermNotEarly"], export_stride=2 if tier == "quick" else 1)
     res = run_tlc_export("destroy", "MC_Destroy", cfg, outdir, tier, asan_stride=16 if tier == "quick" else 4,
-                         stride=1)
+                         stride=1, closed_stride=8)
     # liveness under fairness, without VIEW (hist is then part of the state): the default policy terminates
     lcfg = os.path.join(outdir, "MC_Destroy_live.cfg")
     lconsts = dict(consts)
@@ -1350,7 +1351,7 @@ FAMILIES = {"strtwice": fam_strtwice, "drainbig": fam_drainbig, "nest": fam_nest
 PROPS = {
     "C01": {"families": ["status", "realstatus", "stop", "two", "free"], "title": "exit status exact, stable, reaped once"},
     "C06": {"families": ["stop", "faults", "restart", "two"], "title": "only the own unreaped child is signalled or waited for"},
-    "C07": {"families": ["stop", "free"], "title": "stop sequences"},
+    "C07": {"families": ["stop", "threads", "free"], "title": "stop sequences"},
     "C03": {"families": ["env", "env2", "faults", "conc", "real"], "title": "launch fidelity: argv, environment, working directory, program resolution"},
     "C12": {"families": ["env", "env2", "faults", "conc", "threads", "real"], "title": "start leaves the caller untouched and gives the child a clean signal state"},
     "C10": {"families": ["wiring", "restart", "conc", "real"], "title": "each standard stream is connected exactly where the options say"},
@@ -1414,7 +1415,7 @@ def conclude(prop, tier, results, known, outdir, t0):
             own = owners(d) | FAMILY_EXTRA_OWNERS.get(res["family"], set())
             if res["family"] == "restart" and (d.get("fn") in ("read", "write", "poll", "close") or set(d.get("keys") or []) & {"nfd", "probe", "mon"}):
                 own |= {"C10"}   # which pipe ends the parent holds after the second start is the wiring contract's, whatever the first attempt left
-            if res["family"] in ("env", "env2") and "r" in (d.get("keys") or []) and isinstance(d.get("obs"), dict) and d["obs"].get("r") == -2:
+            if res["family"] in ("env", "env2") and "r" in (d.get("keys") or []) and isinstance(d.get("obs"), dict) and (d["obs"].get("r") == -2 or (isinstance(d.get("exp"), dict) and d["exp"].get("r") == -2)):
                 own |= {"C03"}   # the requested program was not found where the contract says it is: program resolution
             if "INFRA" in own:
                 infra.append(d)
